@@ -551,6 +551,11 @@ func (FramesClean) Shrink(pl engine.Plan) []engine.Plan {
 					}
 				}
 			}
+			if m.Unknown {
+				q := clone()
+				q.Writers[wi].Msgs[i].Unknown = false
+				out = append(out, q)
+			}
 			if m.Versioned {
 				q := clone()
 				q.Writers[wi].Msgs[i].Versioned = false
